@@ -315,6 +315,7 @@ def _find_hex_guard(ix, f, call, var):
         stmt = parent(stmt)
     # climb out of a try body
     blocks = []
+    enclosing_guards = []
     cur = stmt
     p = parent(cur)
     while p is not None:
@@ -322,11 +323,14 @@ def _find_hex_guard(ix, f, call, var):
             b = getattr(p, field, None)
             if isinstance(b, list) and cur in b:
                 blocks.append((b, b.index(cur)))
+                # the loader nests what follows a raising guard into its else branch: that guard precedes us
+                if field == "orelse" and isinstance(p, ast.If) and p.body and isinstance(p.body[-1], ast.Raise):
+                    enclosing_guards.append(p)
         if p is f.node:
             break
         cur, p = p, parent(p)
     found = None
-    for b, i in blocks:
+    for b, i in blocks + [(enclosing_guards, len(enclosing_guards))]:
         for prev in b[:i]:
             if isinstance(prev, ast.If) and prev.body and isinstance(prev.body[-1], ast.Raise):
                 names = {dotted(x) for x in ast.walk(prev.test) if isinstance(x, ast.Name)}
